@@ -18,7 +18,10 @@ ASSUMPTIONS = [
     "a subscriber exists on the broadcast channel and it does not lag (capacity 256)",
 ]
 SOURCE_FILES = ["barter-execution/src/exchange/mock/mod.rs", "barter-execution/src/exchange/mock/account.rs",
-                "barter-execution/src/client/mock/mod.rs", "barter/src/execution/builder.rs"]
+                "barter-execution/src/client/mock/mod.rs", "barter/src/execution/builder.rs",
+                "barter-execution/src/error.rs", "barter-execution/src/balance.rs", "barter-execution/src/trade.rs", "barter-execution/src/order/mod.rs",
+                "barter-execution/src/order/state.rs", "barter-execution/src/order/request.rs", "barter-execution/src/order/id.rs",
+                "barter-instrument/src/lib.rs", "barter-instrument/src/instrument/mod.rs", "barter-instrument/src/asset/name.rs", "barter-instrument/src/instrument/name.rs"]
 
 
 def signature(ops, k, key, impl_line, spec_line):
@@ -53,5 +56,7 @@ LEVEL_NOTE = ("Trusted: Lean kernel; axioms propext/Classical.choice/Quot.sound 
               "have balances - the exchange's own assert/expect; reach_wf shows they persist), initial balances >= 0 for non_negative only. Quantity means |q|. "
               "Decimal rounding/overflow, broadcast lag/no-subscriber, request-loop shutdown and the unanswered cancel request (response sender dropped; modelled as "
               "`dropped`, not part of this property) are outside the theorems. Buying does not credit the base asset and selling does not credit the quote asset in "
-              "the code; the property does not ask for it and the theorems state exactly that only the spent asset changes.")
+              "the code; the property does not ask for it and the theorems state exactly that only the spent asset changes. "
+              "Additionally tied by translation: MockExchange::{open_order, validate_order_kind_supported, find_instrument_data, order_id_sequence_fetch_add, update_time_exchange}, build_open_order_err_response and AccountState::{balance_mut, update_time_exchange, trades, ack_trade} are regenerated from the current source on every run by tools/rust2lean_sm.py (Generated/Machines3.lean, group mock; the FnvHashMaps read through the translator's explicit map vocabulary, format! as the list of its arguments, the channel fields and the async request loop left out) and proved to simulate the model up to the order of the maps for all related states and requests under WF (map_machine_agrees_with_source); the translator, its prelude and the stated meaning of the map vocabulary are trusted for that tie.")
+PREBUILD = [["python3", "tools/rust2lean_sm.py", "--require", "mock"]]
 SUBCHECKS = ["C08C"]
